@@ -21,19 +21,25 @@ def IsValidHello (cfg : Cfg) (tok : Bytes) : Prop :=
 theorem negotiate_sound (spec : AbsSpec) (cfg : Cfg) (g : Greeting) (m : Mech)
     (h : negotiate spec cfg g = .ok m) :
     mechEnabled cfg (mechKindOf m) = true ∧ mechNameBytes (mechKindOf m) = g.mechanism := by
-  sorry
+  exact negotiate_sound' h
 
 /-- with security configured, NULL is never negotiated -/
 theorem secure_never_null (spec : AbsSpec) (cfg : Cfg) (hs : cfg.securityEnabled = true) (g : Greeting) (m : Mech)
     (h : negotiate spec cfg g = .ok m) : mechKindOf m ≠ .null := by
-  sorry
+  intro hk
+  have h1 := (negotiate_sound' h).1
+  rw [hk] at h1
+  simp [mechEnabled, hs] at h1
 
 /-- No downgrade: with security configured the connection never becomes a ZMTP/2.0 session, whatever the
 peer sends and whatever ALLOW_ZMTP2 says. -/
 theorem no_v2_when_secure (spec : AbsSpec) (cfg : Cfg) (hs : cfg.securityEnabled = true)
     (reads : List (Nat × Bytes)) :
     (feedAll spec cfg Eng.init reads).1.version ≠ some .v2 := by
-  sorry
+  intro hv
+  have h1 := (feedAll_Inv spec cfg reads).v2ref hv
+  simp only [v2Refused, Gen.v2RefusedWhenSecurity, hs] at h1
+  simp at h1
 
 /-- Nothing reaches the application before the handshake completed: every delivered message is preceded, in
 the engine's output, by `HandshakeComplete`. -/
@@ -41,7 +47,7 @@ theorem no_deliver_before_handshake (spec : AbsSpec) (cfg : Cfg) (reads : List (
     (pre post : List AppAct) (m : Message)
     (h : (feedAll spec cfg Eng.init reads).2.app = pre ++ .deliver m :: post) :
     ∃ a ∈ pre, isHandshakeComplete a = true := by
-  sorry
+  exact (feedAll_Inv spec cfg reads).deliver pre m post h
 
 /-- A completed handshake means a mechanism was negotiated, it is one that is enabled locally, and (with
 security configured) it is not NULL. -/
@@ -49,7 +55,12 @@ theorem handshake_requires_negotiated_mechanism (spec : AbsSpec) (cfg : Cfg) (hs
     (reads : List (Nat × Bytes))
     (h : ∃ a ∈ (feedAll spec cfg Eng.init reads).2.app, isHandshakeComplete a = true) :
     ∃ k, (feedAll spec cfg Eng.init reads).1.gNegotiated = some k ∧ k ≠ .null ∧ mechEnabled cfg k = true := by
-  sorry
+  rcases (feedAll_Inv spec cfg reads).hc h with hv | ⟨k, hk, hen, _⟩
+  · exact absurd hv (no_v2_when_secure spec cfg hs reads)
+  · refine ⟨k, hk, ?_, hen⟩
+    intro hnull
+    rw [hnull] at hen
+    simp [mechEnabled, hs] at hen
 
 /-- PLAIN server: a handshake completes only if the peer presented a HELLO with exactly the configured user
 name and password — for every byte stream (missing, repeated, reordered, malformed commands; data before
@@ -59,7 +70,17 @@ theorem plain_server_requires_credentials (spec : AbsSpec) (cfg : Cfg)
     (hsrv : cfg.isServer = true) (reads : List (Nat × Bytes))
     (h : ∃ a ∈ (feedAll spec cfg Eng.init reads).2.app, isHandshakeComplete a = true) :
     ∃ tok ∈ (feedAll spec cfg Eng.init reads).1.gTokens, IsValidHello cfg tok := by
-  sorry
+  obtain ⟨hs, hpl, hcu, hno⟩ := hcfg
+  rcases (feedAll_Inv spec cfg reads).hc h with hv | ⟨k, hk, hen, hf⟩
+  · exact absurd hv (no_v2_when_secure spec cfg hs reads)
+  · cases k with
+    | null => simp [mechEnabled, hs] at hen
+    | curve => simp [mechEnabled, hcu] at hen
+    | noise => simp [mechEnabled, hno] at hen
+    | plain =>
+      simp only [Final, hsrv, if_true] at hf
+      obtain ⟨tok, hmem, hv⟩ := hf
+      exact ⟨tok, hmem, hv⟩
 
 /-- a PLAIN server without configured credentials accepts nobody -/
 theorem plain_server_without_credentials_rejects (spec : AbsSpec) (cfg : Cfg)
@@ -67,7 +88,24 @@ theorem plain_server_without_credentials_rejects (spec : AbsSpec) (cfg : Cfg)
     (hsrv : cfg.isServer = true) (hnone : cfg.plainUser = none ∨ cfg.plainPass = none)
     (reads : List (Nat × Bytes)) :
     ∀ a ∈ (feedAll spec cfg Eng.init reads).2.app, isHandshakeComplete a = false ∧ isDeliver a = false := by
-  sorry
+  have nohc : ¬ ∃ a ∈ (feedAll spec cfg Eng.init reads).2.app, isHandshakeComplete a = true := by
+    intro h
+    obtain ⟨tok, _, body, u, p, _, _, hu, hp⟩ := plain_server_requires_credentials spec cfg hcfg hsrv reads h
+    rcases hnone with hn | hn
+    · rw [hn] at hu; cases hu
+    · rw [hn] at hp; cases hp
+  intro a ha
+  constructor
+  · cases hh : isHandshakeComplete a
+    · rfl
+    · exact absurd ⟨a, ha, hh⟩ nohc
+  · cases a with
+    | deliver m =>
+      obtain ⟨pre, post, hsplit⟩ := List.append_of_mem ha
+      obtain ⟨b, hb, hbc⟩ := no_deliver_before_handshake spec cfg reads pre post m hsplit
+      exact absurd ⟨b, by rw [hsplit]; exact List.mem_append_left _ hb, hbc⟩ nohc
+    | handshakeComplete i st => rfl
+    | peerError e => rfl
 
 /-- PLAIN client: completes only after the server answered WELCOME -/
 theorem plain_client_requires_welcome (spec : AbsSpec) (cfg : Cfg)
@@ -75,7 +113,17 @@ theorem plain_client_requires_welcome (spec : AbsSpec) (cfg : Cfg)
     (hcl : cfg.isServer = false) (reads : List (Nat × Bytes))
     (h : ∃ a ∈ (feedAll spec cfg Eng.init reads).2.app, isHandshakeComplete a = true) :
     ∃ tok ∈ (feedAll spec cfg Eng.init reads).1.gTokens, ∃ body, tok = lenPrefixed Gen.plainWelcome ++ body := by
-  sorry
+  obtain ⟨hs, hpl, hcu, hno⟩ := hcfg
+  rcases (feedAll_Inv spec cfg reads).hc h with hv | ⟨k, hk, hen, hf⟩
+  · exact absurd hv (no_v2_when_secure spec cfg hs reads)
+  · cases k with
+    | null => simp [mechEnabled, hs] at hen
+    | curve => simp [mechEnabled, hcu] at hen
+    | noise => simp [mechEnabled, hno] at hen
+    | plain =>
+      simp only [Final, hcl, Bool.false_eq_true, if_false] at hf
+      obtain ⟨tok, hmem, hv⟩ := hf
+      exact ⟨tok, hmem, hv⟩
 
 /-- CURVE / Noise_XX (abstract mechanism): a handshake completes only if the mechanism itself reported
 `ready` on exactly the tokens the engine accepted from the peer — the engine never skips or short-circuits it. -/
@@ -85,7 +133,18 @@ theorem abstract_mechanism_not_skipped (spec : AbsSpec) (cfg : Cfg)
     (h : ∃ a ∈ (feedAll spec cfg Eng.init reads).2.app, isHandshakeComplete a = true) :
     ∃ k n, (k = .curve ∨ k = .noise) ∧ (feedAll spec cfg Eng.init reads).1.gNegotiated = some k
       ∧ spec.status k cfg.isServer (feedAll spec cfg Eng.init reads).1.gTokens n = .ready := by
-  sorry
+  obtain ⟨hs, hpl⟩ := hcfg
+  rcases (feedAll_Inv spec cfg reads).hc h with hv | ⟨k, hk, hen, hf⟩
+  · exact absurd hv (no_v2_when_secure spec cfg hs reads)
+  · cases k with
+    | null => simp [mechEnabled, hs] at hen
+    | plain => simp [mechEnabled, hpl] at hen
+    | curve =>
+      obtain ⟨n, hn⟩ := hf
+      exact ⟨.curve, n, Or.inl rfl, hk, hn⟩
+    | noise =>
+      obtain ⟨n, hn⟩ := hf
+      exact ⟨.noise, n, Or.inr rfl, hk, hn⟩
 
 -- non-vacuity: a PLAIN server does complete for the right credentials (concrete transcript, evaluated)
 example :
